@@ -15,7 +15,7 @@ from lingo_gen import S, sx
 
 PROP = "C02"
 LEAN_MODULES = ["DrxProps.C02", "DrxProps.C02b", "DrxProps.C02Link"]
-FAMILIES = ["lspec"]
+FAMILIES = ["lspec", "lscr"]
 RULE = ("programs are generated as source trees (lean/Drx/Spec/Ast.lean), compiled by the Lean compile scheme (validated against the 70 "
         "fixtures every run: coverage.scheme_validation), decompiled by the real code, and the emitted text is read back by the Lean "
         "reference reader (Appendix B precedence); one observable per handler = its canonical S-expression + its recompiled bytecode. "
@@ -53,6 +53,8 @@ def build_cases(scripts, kind_default="random"):
             lines_c.append(f"lspec hcode {L.hexs(g['names_sx'])} {L.hexs(hn)} {hh}"); expect.append(hcode)
         lines_c.append(f"lspec scanon {L.hexs(sx(tree[:4] + [[h[0], h[1], []] for h in handlers]))}"); expect.append(g["header"])
         lines_c.append("lspec whole 0 - -"); expect.append("same")
+        # correspondence of the MODEL of the decompiler (family lscr) on the same script: the real text must be the model's text
+        lines_c.append(f"lscr lingo {g['lscr'] or '-'} {g['lnam'] or '-'}"); expect.append(None)
         spec = dict(script=sx(tree), pre=list(s.get("pre", ())), scr_num=s.get("scr_num", 0), lscr=g["lscr"], lnam=g["lnam"],
                     names_sx=g["names_sx"], features=[L.features(h, tree[3][1:], [x[1] for x in handlers]) for h in handlers], nhandlers=len(handlers))
         cases.append(Case(kind=s.get("kind", kind_default), spec=spec, lines=lines_c, expect=expect))
@@ -353,13 +355,16 @@ def cases(rng, tier):
 def impl(case):
     sp = case["spec"]
     n = len(case["lines"])
+    model_line = case["lines"][-1].startswith("lscr lingo ")        # corpus replays predate the model line
+    n0 = n - 1 if model_line else n
     try:
         text = L.decompile(L.B(sp["lscr"]), L.B(sp["lnam"]))["lingo"]
     except Exception:
         return [canon("error")] * n
+    tail = [canon(text)] if model_line else []
     r = L.parse_rt(L.ask([L.rt_line(text, sp["names_sx"], sp.get("scr_num", 0))])[0])
     if "error" in r:
-        return ["unreadable:" + r["error"][:60]] * n
+        return ["unreadable:" + r["error"][:60]] * n0 + tail
     out = []
     nh = sp["nhandlers"]
     for i in range(nh):
@@ -372,7 +377,7 @@ def impl(case):
     handlers_equal = all(a == b for a, b in zip(out, exp))
     # recompilation clause for the whole container: only meaningful when every handler read back as the source
     out.append("same" if (not handlers_equal or r["whole"] == sp["lscr"]) else "different")
-    return out
+    return out + tail
 
 
 def nontrivial(case, io):
